@@ -535,4 +535,118 @@ example : (enterOne (hooksAsync exU plainM) .async plainM (some "E") { cfg := [[
 example : (enterOne (hooksFlagged exU nestedM) .sync nestedM none { cfg := nestedCfg, status := "running" }
     ⟨["P", "A", "A2", "a2f"], true⟩).status = "running" := by decide
 
+/-! ## 6. completion ends the macrostep (finding F26, repaired in the library)
+
+`_process_event` executes the transitions selected for one event in a loop. Since the repair the loop
+starts with `if self.status not in ("running", "uninitialized"): break` — once an earlier transition
+of the same macrostep has entered a top-level final state (status "done"), or the machine has failed
+or been stopped, no later selected transition executes. In the model: `finished status`, and the fold
+step `peStep` of `processEvent` (`processEvent_is_fold`, `peStep_def`). All statements are for both
+engines (`fl`), every hook set and every user environment, any number of selected transitions. -/
+
+/-- `finished` is the code's `self.status not in ("running", "uninitialized")` -/
+theorem finished_spec (st : String) : finished st = true ↔ st ≠ "running" ∧ st ≠ "uninitialized" :=
+  finished_iff st
+
+example : finished "done" = true ∧ finished "error" = true ∧ finished "stopped" = true ∧
+    finished "running" = false ∧ finished "uninitialized" = false := by decide
+
+/-- what `processEvent` is when selection succeeds: the fold of `peStep` over the selected list … -/
+theorem processEvent_is_fold (h : Hooks) (fl : Flavor) (m : Machine) (u : UEnv) (ev : Ev) (s : St)
+    (sel : List Cand) (hsel : selectTransitions m s.cfg (u.genv s.ctx ev.type) ev = .ok sel) :
+    processEvent h fl m u ev s = sel.foldl (peStep h fl m ev sel.length) s :=
+  processEvent_peFold h fl m u ev s hsel
+
+/-- … and what one step of that fold is (`n` = number of selected transitions): a pending error, a
+    finished machine and (several selected) an inactive source each leave the state as it is -/
+theorem peStep_def (h : Hooks) (fl : Flavor) (m : Machine) (ev : Ev) (n : Nat) (s : St) (c : Cand) :
+    peStep h fl m ev n s c =
+      if s.err.isSome then s
+      else if finished s.status then s
+      else if n > 1 && !(s.cfg.contains c.src) then s
+      else execute h fl m ev (planTransition m s.cfg s.hist c) s := rfl
+
+/-- *At the level of the loop:* from a finished state, whatever candidates remain, the state is
+    returned unchanged — nothing executes. -/
+theorem finished_stops_fold (h : Hooks) (fl : Flavor) (m : Machine) (ev : Ev) (n : Nat) (cs : List Cand)
+    (s : St) (hf : finished s.status = true) : cs.foldl (peStep h fl m ev n) s = s :=
+  peFold_finished h fl m ev n cs s hf
+
+/-- **`finished_stops_macrostep`.** A machine that is finished processes an event (whenever selection
+    succeeds, whatever was selected) by doing nothing: the state is returned unchanged — every field. -/
+theorem finished_stops_macrostep (h : Hooks) (fl : Flavor) (m : Machine) (u : UEnv) (ev : Ev) (s : St)
+    (hf : finished s.status = true) (sel : List Cand)
+    (hsel : selectTransitions m s.cfg (u.genv s.ctx ev.type) ev = .ok sel) :
+    processEvent h fl m u ev s = s :=
+  processEvent_finished h fl m u ev s hf sel hsel
+
+/-- the same field by field: no action ran and no observer was notified (trace), configuration,
+    history, context, queue, status and counters are what they were -/
+theorem finished_stops_macrostep_fields (h : Hooks) (fl : Flavor) (m : Machine) (u : UEnv) (ev : Ev) (s : St)
+    (hf : finished s.status = true) (sel : List Cand)
+    (hsel : selectTransitions m s.cfg (u.genv s.ctx ev.type) ev = .ok sel) :
+    let r := processEvent h fl m u ev s
+    r.trace = s.trace ∧ r.cfg = s.cfg ∧ r.hist = s.hist ∧ r.ctx = s.ctx ∧ r.queue = s.queue ∧
+      r.status = s.status ∧ r.err = s.err ∧ r.raiseDepth = s.raiseDepth ∧ r.errors = s.errors := by
+  simp only [finished_stops_macrostep h fl m u ev s hf sel hsel, and_self]
+
+/-- **The loop is cut where the machine finishes.** If the state reached after the candidates
+    `pre ++ [c]` is finished (`c` entered a top-level final state, say), folding the whole list
+    `pre ++ c :: post` yields that very state: `post` contributes nothing. -/
+theorem completion_cuts_fold (h : Hooks) (fl : Flavor) (m : Machine) (ev : Ev) (n : Nat) (pre post : List Cand)
+    (c : Cand) (s : St) (hf : finished ((pre ++ [c]).foldl (peStep h fl m ev n) s).status = true) :
+    (pre ++ c :: post).foldl (peStep h fl m ev n) s = (pre ++ [c]).foldl (peStep h fl m ev n) s :=
+  peFold_cut h fl m ev n pre post c s hf
+
+/-- **… for a whole event.** If the selected list is `pre ++ c :: post` and the machine is finished
+    once `c` has been dealt with, the result of the macrostep is the state at that point: no transition
+    of `post` executes — no action of theirs runs, the final state is not left again. -/
+theorem completion_cuts_macrostep (h : Hooks) (fl : Flavor) (m : Machine) (u : UEnv) (ev : Ev) (s : St)
+    (pre post : List Cand) (c : Cand)
+    (hsel : selectTransitions m s.cfg (u.genv s.ctx ev.type) ev = .ok (pre ++ c :: post))
+    (hf : finished ((pre ++ [c]).foldl (peStep h fl m ev (pre ++ c :: post).length) s).status = true) :
+    processEvent h fl m u ev s = (pre ++ [c]).foldl (peStep h fl m ev (pre ++ c :: post).length) s := by
+  rw [processEvent_is_fold h fl m u ev s _ hsel]
+  exact completion_cuts_fold h fl m ev _ pre post c s hf
+
+/-- in particular the status the macrostep ends with is the finished one (e.g. "done" stays "done") -/
+theorem completion_status_kept (h : Hooks) (fl : Flavor) (m : Machine) (u : UEnv) (ev : Ev) (s : St)
+    (pre post : List Cand) (c : Cand)
+    (hsel : selectTransitions m s.cfg (u.genv s.ctx ev.type) ev = .ok (pre ++ c :: post))
+    (hf : finished ((pre ++ [c]).foldl (peStep h fl m ev (pre ++ c :: post).length) s).status = true) :
+    finished (processEvent h fl m u ev s).status = true := by
+  rw [completion_cuts_macrostep h fl m u ev s pre post c hsel hf]; exact hf
+
+/-- **The witness of F26** (`f26M`, `findings/F26_transitions_after_completion.json`): in the start
+    configuration event `D` selects two transitions — `x → #m.f` (region `r2`, deepest source, first)
+    and the root's `→ #m.p.r1.b` … -/
+example : (syncStart f26M exU {}).cfg = f26S.cfg ∧ (syncStart f26M exU {}).status = "running" := by decide
+example : (match selectTransitions f26M f26S.cfg (exU.genv [] "D") (.user "D") with
+    | .ok sel => some (sel.map (fun c => (c.src, c.t.tid)))
+    | .error _ => none) = some [(["p", "r2", "x"], 1), ([], 0)] := by decide
+/-- … the first one enters the top-level final state `f` and completes the machine; the source of the
+    second (the root) is still active, so the stale-source test does not skip it … -/
+example : let s1 := peStep (hooksFlagged exU f26M) .sync f26M (.user "D") 2 f26S ⟨["p", "r2", "x"], f26XT⟩
+    (s1.status, s1.cfg, s1.cfg.contains [], s1.trace) =
+      ("done", [[], ["f"]], true, ["#t:m,m.f", "en:f@D", "tr:p.r2.x:D:0@D"]) := by decide
+/-- … executing it there is what the unrepaired library did: `f` is left again (its exit action runs),
+    the transition's action runs, the machine is "done" outside any final state … -/
+example : let s1 := peStep (hooksFlagged exU f26M) .sync f26M (.user "D") 2 f26S ⟨["p", "r2", "x"], f26XT⟩
+    let s2 := execute (hooksFlagged exU f26M) .sync f26M (.user "D") (planTransition f26M s1.cfg s1.hist ⟨[], f26RootT⟩) s1
+    (s2.status, s2.cfg.contains ["f"], s2.trace.take 3) =
+      ("done", false, ["#t:m,m.p,m.p.r2,m.p.r2.x,m.p.r1,m.p.r1.b", "tr::D:0@D", "ex:f@D"]) := by decide
+/-- … and the model, like the repaired library, stops: the second step returns the state unchanged,
+    and the whole event ends in `f` with status "done"; `tr::D:0` and `ex:f` never run. Both engines. -/
+example : let s1 := peStep (hooksFlagged exU f26M) .sync f26M (.user "D") 2 f26S ⟨["p", "r2", "x"], f26XT⟩
+    let s2 := peStep (hooksFlagged exU f26M) .sync f26M (.user "D") 2 s1 ⟨[], f26RootT⟩
+    (s2.status, s2.cfg, s2.trace) = (s1.status, s1.cfg, s1.trace) := by decide
+example : let s := processEvent (hooksFlagged exU f26M) .sync f26M exU (.user "D") f26S
+    (s.status, s.cfg, s.trace) = ("done", [[], ["f"]], ["#t:m,m.f", "en:f@D", "tr:p.r2.x:D:0@D"]) := by decide
+example : let s := syncSend f26M exU (.user "D") (syncStart f26M exU {})
+    (s.status, s.cfg, s.trace) = ("done", [[], ["f"]], ["#t:m,m.f", "en:f@D", "tr:p.r2.x:D:0@D", "#recv:D"]) := by
+  decide
+example : let s := asyncSend f26M exU (.user "D") (asyncStart f26M exU {})
+    (s.status, s.cfg, s.trace) = ("done", [[], ["f"]], ["#t:m,m.f", "en:f@D", "tr:p.r2.x:D:0@D", "#recv:D"]) := by
+  decide
+
 end XSM.C10
